@@ -1,5 +1,6 @@
 from __future__ import annotations
 import enum
+import re
 import typing
 import structlog
 from sympy.printing.c import C99CodePrinter
@@ -40,7 +41,7 @@ def get_formatter(format: Format) -> typing.Callable[[str], str]:
 
 
 def bool_to_int(expr: str) -> str:
-    return expr.replace("false", "0").replace("true", "1")
+    return re.sub(r"\btrue\b", "1", re.sub(r"\bfalse\b", "0", expr))
 
 
 class GotranCCodePrinter(C99CodePrinter):
